@@ -93,6 +93,11 @@ func (g *Gen) collectNames() {
 				if name == "" || name == "_" {
 					continue
 				}
+				// only local variables bind a source name: the Sel identifier of x.f (a field object) or a package-level
+				// object must not shadow a parameter or local of the same name
+				if ov, isVar := x.Object().(*types.Var); !isVar || ov.IsField() || (ov.Parent() != nil && ov.Parent() == ov.Pkg().Scope()) {
+					continue
+				}
 				g.names[name] = append(g.names[name], namedVal{v: x.X, isAddr: x.IsAddr, blk: b, idx: i})
 			case *ssa.Phi:
 				if x.Comment != "" {
